@@ -23,6 +23,18 @@
 (*   CellNs   values written into such a cell: the boundaries of the WIRE   *)
 (*            cell (0, 32767, 32768, 65535) and values the cell cannot hold *)
 (*            (65541, and 1000001 standing for -1), of which the wire carries the low 16 bits        *)
+(*   FreshNs  the reader decodes INTO an object a constructor has just made; *)
+(*            the constructor of the hit-map pack of the small world takes   *)
+(*            the hit cell from the PROCESS (an environment variable, the    *)
+(*            clock): FreshNs = what that source may give in a decoding      *)
+(*            process (0: unset).  The property does not quantify over the   *)
+(*            process: the laws hold for every value of it.                  *)
+(*   KeepFresh  design FALSE: the reader assigns every cell it reads; TRUE   *)
+(*            (refuted): it takes the cell from the wire only when it is not *)
+(*            zero ("unset by an old sender") -- with FreshNs = {0} that     *)
+(*            reader cannot be told from the design, in a process where the  *)
+(*            source is set a pack sent with a zero cell comes back with the *)
+(*            receiver's own value                                           *)
 (***************************************************************************)
 EXTENDS PackCodec, TLC
 
@@ -30,7 +42,8 @@ CONSTANTS PcodeNs,   \* project codes (small naturals; 99 stands for a wide one,
           Okinds, Onodes,   \* naturals
           BlobIds,   \* subset of {"nil", "empty", "one"}
           MaxItems, Marker, NoStamp, Reverse,
-          CellNs, CellRead
+          CellNs, CellRead,
+          FreshNs, KeepFresh
 
 \* a project code that needs the 8-byte decimal class
 Wide == <<0, 0, 1, 0, 0, 0, 0, 0>>
@@ -192,9 +205,14 @@ MCEncode == /\ msg = None /\ store = <<>> /\ box = None
             /\ \E p \in Universe : Encode(MsgFor(p))
             /\ UNCHANGED <<dp, its>>
 
+\* the object the reader has filled, given what its constructor took from the process
+Into(p, fresh) == IF KeepFresh /\ p.type = "HitMapPack1" /\ p.f[1] = Zeros(8)
+                  THEN [p EXCEPT !.f = <<CellOf(fresh), p.f[2]>>] ELSE p
+
 MCDecode == /\ msg # None /\ dec = None
             /\ LET d == RefDec(msg.bytes \o Trailer, 1) IN
-                 IF d.ok THEN Decode(d.p.type, Leaves(d.p), d.next - 1) /\ dp' = d.p
+                 IF d.ok THEN \E fresh \in (IF KeepFresh THEN FreshNs ELSE {0}) :   \* the design reader does not look at it
+                                LET q == Into(d.p, fresh) IN Decode(q.type, Leaves(q), d.next - 1) /\ dp' = q
                  ELSE Decode("unreadable", [x \in {} |-> 0], 0) /\ dp' = None
             /\ UNCHANGED its
 
